@@ -14,7 +14,12 @@ import (
 func VerifH_C02_order() {
 	procs := vRange("procs", 1, vParam("maxProcs", 2))
 	nb := vRange("blocks", 1, vParam("maxBlocks", 2))
-	c := c09Build(nb, vParam("maxNodes", 1), true)
+	header := true
+	if vParam("alsoHeaderless", 0) == 1 {
+		// a stream resumed at a data block (no OSMHeader): same order guarantee
+		header = vRange("header", 0, 1) == 1
+	}
+	c := c09Build(nb, vParam("maxNodes", 1), header)
 	sc := New(context.Background(), &vReader{data: c.f.data, chunk: vParam("chunk", 0)}, procs)
 	if vParam("filters", 0) == 1 {
 		// a user filter running inside the decoder goroutines
